@@ -8,7 +8,7 @@ use std::sync::atomic::Ordering;
 use std::sync::Arc;
 use tokio::sync::mpsc;
 
-const ADDRS: [&str; 3] = ["10.9.9.9", "10.8.8.8", "2001:db8::9"];
+const ADDRS: [&str; 3] = ["10.9.9.9", "10.255.8.255", "2001:db8::9"]; // the second one has octets at the top of the range
 
 pub fn run(cases: &[Vec<String>]) {
     for case in cases {
